@@ -155,6 +155,22 @@ func c17Run(raw []byte) (*Line, error) {
 			setClamp = func(b bool) { s.SetClamp(b) }
 			assign = func(a, b float64, base int) { s.Min, s.Max, s.Base = a, b, base }
 		}
+		// a level for the TicksAtLevel calls of the histories whose spacing is at least the width of
+		// the domain the object holds at that moment (at most two ticks: a fixed level such as 1 or 3
+		// means 1e9 ticks = 8 GB on a domain of width 1e9)
+		histLevel := func(a, b float64, base int) int {
+			if c.K == 2 {
+				return 3
+			}
+			if base == 0 {
+				base = 10
+			}
+			w := math.Abs(b - a)
+			if base < 2 || !(w > 0) || math.IsInf(w, 0) {
+				return 0
+			}
+			return 2 * int(math.Ceil(math.Log(w)/math.Log(float64(base))))
+		}
 		// history calls at FIXED levels must not materialise millions of ticks on a wide domain (a 1e9-wide
 		// domain at level 1 is 8 GB of ticks: on a machine with less memory that thrashes into the per-case
 		// time limit and is reported as a hang of the library, which it is not): only list what CountTicks
@@ -176,9 +192,9 @@ func c17Run(raw []byte) (*Line, error) {
 			catch(func() { setClamp(true); mapf(mn); mapf(mx * 2); ticksO(o2); count(2) })
 			setClamp(false)
 		case 3:
-			catch(func() { ticksO(o2); ticksO(scale.TickOptions{Max: 1}); atSmall(3) })
+			catch(func() { ticksO(o2); ticksO(scale.TickOptions{Max: 1}); atSmall(histLevel(mn, mx, c.Base)) })
 		case 4:
-			catch(func() { ticksO(o); count(0); atSmall(1) })
+			catch(func() { ticksO(o); count(0); atSmall(histLevel(mn, mx, ibase)) })
 			assign(mn, mx, c.Base)
 		case 5:
 			catch(func() { ticksO(o) })
